@@ -2311,6 +2311,11 @@ def aten_convolution(
         stride = [stride[0]] * image_d
     strides = list(stride)
 
+    if not isinstance(output_padding, Sequence):
+        output_padding = [output_padding] * image_d
+    elif len(output_padding) == 1:
+        output_padding = [output_padding[0]] * image_d
+
     result = _aten_convolution_onnx(
         input,
         weight,
